@@ -131,3 +131,53 @@ Definition check12 (c : rinput * robs) : bool * bool * nat :=
 
 Definition explain12 (c : rinput * robs) :=
   let '(i, o) := c in (run_obs fixed (ri_tys i) (ri_hist i) init, os_bad (walk12 i o), missing i o).
+
+(* ---- two overlapping publishers and a crash (suites resubrace, resubracesqlite) ---- *)
+(* While the live handler of a subscription handles event v1, a second goroutine publishes v2 (same type) and gets as far
+   as the entry of its own delivery; the first delivery then finishes - its save reads bus.lastOffset, which is already
+   v2's - and the process dies before v2 is handled.  Modelled as one composite step over the primitives of the model. *)
+Record rrinput := { rr_tys : list nat; rr_pre : list (op * plan); rr_ty : nat; rr_v1 : nat; rr_v2 : nat; rr_post : list (op * plan) }.
+
+Definition with_dead (s : rs) : rs :=
+  {| log := log s; saved := saved s; last := last s; live := live s; dead := true; tickno := tickno s;
+     budget := budget s; failat := failat s; dels := dels s |}.
+
+Definition pair_crash (s : rs) (ty v1 v2 : nat) : rs :=
+  let s1 := with_append (begin_op s clean) {| e_ty := ty; e_val := v1 |} in
+  let pos1 := last s1 in
+  let s2 := with_append s1 {| e_ty := ty; e_val := v2 |} in
+  let s3 := fold_left (fun acc l =>
+              if Nat.eqb (snd l) ty
+              then with_saved (with_del acc {| d_id := fst l; d_val := v1; d_pos := pos1; d_sv := get_saved acc (fst l) |}) (fst l) (last acc)
+              else acc) (live s2) s2 in
+  with_dead s3.
+
+Definition rr_model (i : rrinput) : list oobs * list ev :=
+  let s1 := run fixed (rr_tys i) (rr_pre i) init in
+  let s2 := pair_crash s1 (rr_ty i) (rr_v1 i) (rr_v2 i) in
+  (run_obs fixed (rr_tys i) (rr_pre i) init ++
+   [{| oo_dels := new_dels s1 s2; oo_err := false; oo_saved := map (get_saved s2) (seq 0 (length (rr_tys i))); oo_dead := true |}] ++
+   run_obs fixed (rr_tys i) (rr_post i) s2,
+   log (run fixed (rr_tys i) (rr_post i) s2)).
+
+Definition rr_hist (i : rrinput) : list (op * plan) :=
+  rr_pre i ++ [(OPub (rr_ty i) (rr_v1 i), {| p_budget := Some 1; p_fail := None |})] ++ rr_post i.
+
+Definition agree12r (i : rrinput) (o : robs) : bool :=
+  list_eqb oobs_eqb (fst (rr_model i)) (ro_ops o) && list_eqb ev_eqb (snd (rr_model i)) (ro_log o) && Nat.eqb (ro_anomaly o) 0.
+
+Definition ok12r (i : rrinput) (o : robs) : bool :=
+  ok12 {| ri_tys := rr_tys i; ri_hist := rr_hist i |} o.
+
+(* known finding (bit 2): the only thing wrong is that the second event of the overlapping pair never reached a
+   subscription that was live when it was published *)
+Definition known12r (i : rrinput) (o : robs) : nat :=
+  let ri := {| ri_tys := rr_tys i; ri_hist := rr_hist i |} in
+  if Nat.eqb (ro_anomaly o) 0 && Nat.eqb (length (ro_ops o)) (length (rr_hist i)) &&
+     match os_bad (walk12 ri o) with [] => true | _ => false end &&
+     match missing ri o with [] => false | _ => true end &&
+     forallb (fun m => Nat.eqb (snd m) (rr_v2 i)) (missing ri o)
+  then 2 else 0.
+
+Definition check12r (c : rrinput * robs) : bool * bool * nat :=
+  let '(i, o) := c in (agree12r i o, ok12r i o, if ok12r i o then 0 else known12r i o).
